@@ -321,6 +321,23 @@ func TestC04_Chain(t *testing.T) {
 			}
 			// ... nor on how close the request comes to the size limits: a request of exactly the maximum operation size is a
 			// request like any other
+			// the reveal value of a chain operation is the whole multihash of its key: a digest shortened together with its
+			// length field is not accepted in its place
+			{
+				short := b.clone()
+				d := refDigest(recAlg, []byte(refJCS(b.SignKey.JWKValue())))
+				if kind == "update" {
+					d = refDigest(updAlg, []byte(refJCS(b.SignKey.JWKValue())))
+				}
+				alg := recAlg
+				if kind == "update" {
+					alg = updAlg
+				}
+				short.Req["revealValue"] = b64(refMultihashBytes(alg, d[:rapid.SampledFrom([]int{0, 1, 16, len(d) - 1}).Draw(t, "shortReveal")]))
+				if _, err := stack.Parser.Parse("did:sidetree", short.bytes()); err == nil {
+					t.Fatalf("C04 chain %s with a shortened reveal value %v accepted", kind, short.Req["revealValue"])
+				}
+			}
 			lk := linker
 			if rapid.IntRange(0, 2).Draw(t, "exactSizeLinker") == 0 {
 				tight := linkCfg
